@@ -69,6 +69,14 @@ func (a *Analyzer) exec(ctx int, instr ssa.Instruction, st *State, depth int) []
 		}
 		if p, ok := a.val(s, ctx, v.Addr).(APtr); ok {
 			s.cells[p.cell] = a.val(s, ctx, v.Val)
+			if _, isMap := v.Val.Type().Underlying().(*types.Map); isMap {
+				lk := cellKey{p.cell.ctx, p.cell.alloc, p.cell.path + "#len"}
+				if mk, isMk := v.Val.(*ssa.MakeMap); isMk && mk != nil {
+					s.cells[lk] = AInt{konst(0)} // a fresh map is empty
+				} else {
+					delete(s.cells, lk)
+				}
+			}
 		}
 	case *ssa.FieldAddr:
 		if a.derefNil(ctx, v, v.X, s) {
@@ -151,7 +159,19 @@ func (a *Analyzer) exec(ctx int, instr ssa.Instruction, st *State, depth int) []
 				s.cells[k] = nr
 			}
 		}
-	case *ssa.Defer, *ssa.Go, *ssa.DebugRef, *ssa.Send, *ssa.MapUpdate:
+	case *ssa.MapUpdate:
+		if k, ok := a.mapLenCell(s, ctx, v.Map); ok {
+			// the same number of entries (key present) or one more
+			if old, isInt := s.cells[k].(AInt); isInt {
+				t := newTerm("maplen")
+				nonneg[t] = true
+				s.addLE(tvar(t).scale(-1))
+				s.addLE(old.l.sub(tvar(t)))
+				s.addLE(tvar(t).sub(old.l).addK(-1))
+				s.cells[k] = AInt{tvar(t)}
+			}
+		}
+	case *ssa.Defer, *ssa.Go, *ssa.DebugRef, *ssa.Send:
 	case *ssa.If, *ssa.Jump, *ssa.Return, *ssa.Panic:
 	default:
 		if val, ok := instr.(ssa.Value); ok {
